@@ -118,3 +118,19 @@ Definition spec_help (explicit : option string) (p : provided) : option string :
 Definition prov_eqb (a b : provided) : bool :=
   String.eqb (w_above a) (w_above b) && String.eqb (w_inline a) (w_inline b)
   && String.eqb (w_below a) (w_below b) && String.eqb (w_entry a) (w_entry b).
+
+(* ---------- what the argparse action receives ---------- *)
+(* the demanded help text when there is one; otherwise nothing that could be read as documentation: no help at
+   all, or the placeholder the help formatter erases again (it only makes argparse print the default value) *)
+(* the explicit help= of a field: given to simple_parsing's field(help=..) or as dataclasses metadata *)
+Definition explicit_help (custom metadata : option string) : option string :=
+  match custom with Some c => Some c | None => metadata end.
+
+Definition PLACEHOLDER : string := "<__TEMP__>".
+Definition spec_action_help (demanded : option string) (observed : option string) : bool :=
+  match demanded, observed with
+  | Some s, Some o => String.eqb s o
+  | Some _, None => false
+  | None, None => true
+  | None, Some o => String.eqb o PLACEHOLDER
+  end.
